@@ -5,7 +5,10 @@ import (
 	"fmt"
 	"math/big"
 	"math/rand"
+	"os"
+	"runtime/pprof"
 	"sort"
+	"strconv"
 	"sync"
 	"sync/atomic"
 	"time"
@@ -61,7 +64,10 @@ type e2eSpec struct {
 type recChain struct {
 	mu      sync.Mutex
 	ch      *chain
-	rc      *resultChecker
+	rc      *resultChecker // expects the next block of the CURRENT sync
+	top     int            // blocks of the source chain the importer has (ids < top)
+	fresh   bool           // no block of the current sync has arrived yet
+	overlap int            // blocks handed over again by a later sync whose origin was below the head
 	bad     *badResult
 	calls   int
 	maxCall int
@@ -71,15 +77,15 @@ type recChain struct {
 var errRecReject = errors.New("recording chain: block rejected")
 
 func (c *recChain) headLocked() *types.Header {
-	if c.rc.next == 0 {
+	if c.top == 0 {
 		return c.ch.genesis
 	}
-	return c.ch.hdrs[c.rc.next-1]
+	return c.ch.hdrs[c.top-1]
 }
 func (c *recChain) height() int {
 	c.mu.Lock()
 	defer c.mu.Unlock()
-	return c.rc.next
+	return c.top
 }
 func (c *recChain) CurrentHeader() *types.Header {
 	c.mu.Lock()
@@ -93,7 +99,7 @@ func (c *recChain) GetHeaderByNumber(n uint64) *types.Header {
 	if n == c.ch.origin {
 		return c.ch.genesis
 	}
-	if n < c.ch.origin || n > c.ch.origin+uint64(c.rc.next) {
+	if n < c.ch.origin || n > c.ch.origin+uint64(c.top) {
 		return nil
 	}
 	return c.ch.hdrs[n-c.ch.origin-1]
@@ -104,21 +110,21 @@ func (c *recChain) GetHeaderByHash(h common.Hash) *types.Header {
 	if h == c.ch.genesis.Hash() {
 		return c.ch.genesis
 	}
-	if id, ok := c.ch.idOf[h]; ok && id < c.rc.next {
+	if id, ok := c.ch.idOf[h]; ok && id < c.top {
 		return c.ch.hdrs[id]
 	}
 	return nil
 }
 func (c *recChain) HasBlock(h common.Hash, n uint64) bool { return c.GetHeaderByHash(h) != nil }
-func (c *recChain) GetLightStartHeader() *types.Header   { return nil }
+func (c *recChain) GetLightStartHeader() *types.Header    { return nil }
 func (c *recChain) IsUcon() bool                          { return false }
 func (c *recChain) UconLookBackParams() (uint64, uint64)  { return 0, 0 }
 func (c *recChain) TrieBackingDb(types.TrieKind) youdb.Database {
 	return c.db
 }
 func (c *recChain) VerifyAcHeader(*types.Header, []*types.Header) error { return nil }
-func (c *recChain) UpdateTrustedCht(*types.Header) error                 { return nil }
-func (c *recChain) UpdateTrustedBlt(*types.Header) error                 { return nil }
+func (c *recChain) UpdateTrustedCht(*types.Header) error                { return nil }
+func (c *recChain) UpdateTrustedBlt(*types.Header) error                { return nil }
 func (c *recChain) GetHashFromCht(uint64) (common.Hash, error) {
 	return common.Hash{}, errors.New("no cht")
 }
@@ -140,12 +146,34 @@ func (c *recChain) InsertChain(blocks types.Blocks) error {
 		if c.bad != nil {
 			return errRecReject
 		}
+		if c.fresh {
+			// "starting at the sync origin": the origin is whatever common ancestor this sync found,
+			// which may lie below the importer's head (findAncestor samples every second header), but
+			// never above it.
+			c.fresh = false
+			n := b.NumberU64()
+			if n > c.ch.origin && n <= c.ch.num(c.top) && int(n-c.ch.origin-1) < c.rc.next {
+				c.overlap += c.rc.next - int(n-c.ch.origin-1)
+				c.rc.next = int(n - c.ch.origin - 1)
+			}
+		}
 		if bad := c.rc.check(b.Header(), b.Transactions(), 0); bad != nil {
 			c.bad = bad
 			return errRecReject
 		}
+		if c.rc.next > c.top {
+			c.top = c.rc.next
+		}
 	}
 	return nil
+}
+
+// newSync tells the recorder that a new Synchronise call starts (its first block defines its origin).
+func (c *recChain) newSync() {
+	c.mu.Lock()
+	c.fresh = true
+	c.rc.next = c.top
+	c.mu.Unlock()
 }
 
 // ---- scripted peers
@@ -300,8 +328,14 @@ func (p *e2ePeer) RequestBodies(hashes []common.Hash) error {
 		return nil
 	}
 	if kind == rStall {
-		p.h.count("body_resp_stall")
-		return nil
+		if p.idx != p.h.sp.Honest {
+			p.h.count("body_resp_stall")
+			return nil // never answers
+		}
+		// the honest peer "eventually answers": its stall is an answer that comes after the request expired
+		p.h.count("body_resp_late_after_ttl")
+		kind = rFull
+		delay = 1800
 	}
 	var bodies [][]*types.Transaction
 	if len(ids) > 0 {
@@ -359,18 +393,43 @@ func (h *e2eHarness) isDropped(id string) bool {
 	return h.dropped[id]
 }
 
-// sync runs one Synchronise under a generous watchdog. ok=false: the watchdog fired.
-func (h *e2eHarness) sync(p *e2ePeer) (kind string, ok bool) {
+// sync runs one Synchronise under a generous watchdog. ok=false: the watchdog fired. If cut > 0 and
+// the call has not returned after that long, the script disconnects the master (production:
+// removePeer -> UnregisterPeer -> cancel), which must end the sync.
+func (h *e2eHarness) sync(p *e2ePeer, cut time.Duration) (kind string, ok bool) {
 	h.master.Store(p.id)
+	h.rec.newSync()
 	done := make(chan error, 1)
 	_, num := p.Head()
 	go func() { done <- h.d.Synchronise(p.id, num, downloader.FullSync) }()
+	if cut > 0 {
+		select {
+		case err := <-done:
+			return downloader.VerifErrKind(err), true
+		case <-time.After(cut):
+			h.count("fault_attempt_cut_by_master_disconnect")
+			if busy := h.d.VerifBusyWithoutRequest(); len(busy) > 0 {
+				h.count("cut_with_peer_busy_without_request")
+			}
+			h.drop(p.id)
+		}
+	}
 	select {
 	case err := <-done:
 		return downloader.VerifErrKind(err), true
-	case <-time.After(120 * time.Second):
+	case <-time.After(e2eWatchdog()):
+		if os.Getenv("VERIF_C18_DUMP") != "" {
+			pprof.Lookup("goroutine").WriteTo(os.Stderr, 2)
+		}
 		return "watchdog", false
 	}
+}
+
+func e2eWatchdog() time.Duration {
+	if v, err := strconv.Atoi(os.Getenv("VERIF_C18_WATCHDOG")); err == nil && v > 0 {
+		return time.Duration(v) * time.Second
+	}
+	return 120 * time.Second
 }
 
 func genE2ESpec(r *rand.Rand) e2eSpec {
@@ -428,7 +487,7 @@ func runE2ECase(c *kit.Ctx, id string) {
 	sp := genE2ESpec(r)
 	c.Begin(id, sp)
 	ch := genChain(r, sp.Chain, sp.Peers)
-	rec := &recChain{ch: ch, rc: &resultChecker{ch: ch, next: sp.PreSynced}, db: youdb.NewMemDatabase()}
+	rec := &recChain{ch: ch, rc: &resultChecker{ch: ch, next: sp.PreSynced}, top: sp.PreSynced, db: youdb.NewMemDatabase()}
 	h := &e2eHarness{c: c, sp: sp, ch: ch, rec: rec, dropped: map[string]bool{}, counts: map[string]int{}}
 	h.master.Store("")
 	h.d = downloader.New(rec, nil, rec.db, h.drop, new(event.TypeMux))
@@ -453,6 +512,7 @@ func runE2ECase(c *kit.Ctx, id string) {
 		c.Count("e2e_insert_calls", rec.calls)
 		c.Max("e2e_max_insert_batch", int64(rec.maxCall))
 		c.Count("e2e_blocks_imported", rec.height()-sp.PreSynced)
+		c.Count("e2e_blocks_reimported_by_lower_origin", rec.overlap)
 		c.Sample(map[string]interface{}{"spec": sp, "sync_outcomes": outcomes, "imported": rec.height()})
 		if sig == "" {
 			return
@@ -483,7 +543,7 @@ func runE2ECase(c *kit.Ctx, id string) {
 			break
 		}
 		m := cand[r.Intn(len(cand))]
-		kind, ok := h.sync(m)
+		kind, ok := h.sync(m, 12*time.Second)
 		if !ok {
 			finish("")
 			c.EndInconclusive("watchdog fired in a faulty sync attempt")
@@ -516,7 +576,7 @@ func runE2ECase(c *kit.Ctx, id string) {
 		if h.isDropped(hp.id) {
 			h.register(hp)
 		}
-		kind, ok := h.sync(hp)
+		kind, ok := h.sync(hp, 0)
 		if !ok {
 			finish("")
 			c.EndInconclusive("watchdog fired in an honest sync attempt")
